@@ -11,20 +11,26 @@ inductive Err
   | index | value | type | key | notImpl | other
   deriving DecidableEq, Repr, Inhabited
 
+deriving instance DecidableEq for Except
+
 def Err.name : Err → String
   | .index => "IndexError" | .value => "ValueError" | .type => "TypeError"
   | .key => "KeyError" | .notImpl => "NotImplementedError" | .other => "Error"
 
-/-- Python `range(start, stop, step)` for `step ≠ 0`, as a list (empty for `step = 0`). -/
+/-- `len(range(start, stop, step))` (0 for `step = 0`) -/
+def rangeLen (start stop step : Int) : Nat :=
+  if 0 < step then ((stop - start + step - 1) / step).toNat
+  else if step < 0 then ((start - stop + (-step) - 1) / (-step)).toNat
+  else 0
+
+def rangeAux (step : Int) : Nat → Int → List Int
+  | 0, _ => []
+  | k + 1, x => x :: rangeAux step k (x + step)
+
+/-- Python `range(start, stop, step)` for `step ≠ 0`, as a list (empty for `step = 0`).
+    Structural recursion on the computed length, so that `decide` can evaluate it. -/
 def rangeList (start stop step : Int) : List Int :=
-  if h : 0 < step ∧ start < stop then start :: rangeList (start + step) stop step
-  else if h' : step < 0 ∧ stop < start then start :: rangeList (start + step) stop step
-  else []
-termination_by (if 0 < step then stop - start else start - stop).toNat
-decreasing_by
-  all_goals simp_wf
-  · omega
-  · omega
+  rangeAux step (rangeLen start stop step) start
 
 /-- CPython `slice(start, stop, step).indices(n)` (PySlice_Unpack + PySlice_AdjustIndices).
     `none` when `step = 0` (ValueError). -/
